@@ -118,6 +118,49 @@ func scenarios() []scenario {
 		}
 		return bs, func() string { return digest(s) }
 	}})
+	out = append(out, scenario{"UU: 2 x Validate with uniqueItems (per-call hash seed, buckets) on one Resolved", func() ([]func() string, func() string) {
+		s, rs := mustResolve(`{"uniqueItems":true,"items":{"uniqueItems":true}}`, nil)
+		i1 := decode(`[[1,"1",1.0],[{"a":1,"b":[2]},{"b":[2],"a":1.0}],[]]`)
+		i2 := decode(`[[1,2],[{"a":1},{"a":2}],["x","y","z"],[[1],[2]]]`)
+		i3 := []any{[]any{1.0, json.Number("2"), int8(3)}, []any{map[string]int{"a": 1}}}
+		return []func() string{
+			func() string { return verdict(rs, i1) },
+			func() string { return verdict(rs, i2) },
+			func() string { return verdict(rs, i3) },
+		}, func() string { return digest(s) + digest(i1) + digest(i2) }
+	}})
+	wide := `"type":["object","array","integer"],"enum":[{"k":"a","n":3,"l":[1,"x"]},{"k":"b"},[1,2,2.5],[1,"x"],7,{"k":"a","n":4,"extra":1}],
+ "properties":{"k":{"const":"a"},"n":{"type":"integer","minimum":1,"maximum":10,"exclusiveMinimum":0,"exclusiveMaximum":11,"multipleOf":1},"l":{"contains":{"type":"string","minLength":1,"maxLength":3},"maxItems":3,"minItems":1}},
+ "required":["k"],"propertyNames":{"pattern":"^[a-z]+$"},"minProperties":1,"maxProperties":4,
+ "allOf":[{"anyOf":[{"required":["n"]},{"type":"array"},{"type":"integer"}]},{"oneOf":[{"type":"object"},{"type":"array"},{"const":7}]},{"not":{"const":8}}],
+ "if":{"type":"array"},"then":{"items":{"type":"number"},"uniqueItems":true},"else":{"additionalProperties":{"type":["integer","string","array"]}}`
+	mkWide := func(name, head, tail string) {
+		out = append(out, scenario{name, func() ([]func() string, func() string) {
+			s, rs := mustResolve("{"+head+wide+tail+"}", nil)
+			is := []any{decode(`{"k":"a","n":3,"l":[1,"x"]}`), decode(`{"k":"a","n":4,"extra":1}`), decode(`[1,2,2.5]`)}
+			var bs []func() string
+			for _, in := range is {
+				in := in
+				bs = append(bs, func() string { return verdict(rs, in) })
+			}
+			return bs, func() string { return digest(s) }
+		}})
+	}
+	mkWide("WIDE: 3 x Validate on one Resolved over every keyword group (2020-12)", "", `,"dependentRequired":{"n":["k"]},"dependentSchemas":{"l":{"required":["n"]}},"prefixItems":[{"type":"integer"}],"unevaluatedItems":{"type":"number"},"patternProperties":{"^l$":{"type":"array"}},"unevaluatedProperties":false`)
+	mkWide("WIDE07: 3 x Validate on one Resolved over every keyword group (draft-07)", `"$schema":"http://json-schema.org/draft-07/schema#",`, `,"dependencies":{"n":["k"],"l":{"required":["n"]}},"patternProperties":{"^l$":{"type":"array"}},"definitions":{"d":{"type":"integer"}}`)
+	out = append(out, scenario{"RVD: Resolve(ValidateDefaults) x 2 racing Validate on an older Resolved of the same tree (patterns, required sets, defaults)", func() ([]func() string, func() string) {
+		text := `{"type":"object","properties":{"k":{"type":"string","pattern":"^[ab]","default":"a"},"n":{"type":"integer","default":1,"minimum":0}},"patternProperties":{"^x":{"type":"integer","default":2}},"required":["k"],"propertyNames":{"pattern":"^[a-z]"}}`
+		s, old := mustResolve(text, nil)
+		i := decode(`{"k":"b","n":2,"x1":3}`)
+		res := func() string {
+			rs, err := s.Resolve(&jsonschema.ResolveOptions{ValidateDefaults: true})
+			if err != nil {
+				return "resolve error: " + err.Error()
+			}
+			return verdict(rs, decode(`{"k":"c"}`))
+		}
+		return []func() string{res, res, func() string { return verdict(old, i) }}, func() string { return digest(s) + digest(i) }
+	}})
 	out = append(out, scenario{"AD: 2 x ApplyDefaults (distinct instances) + Validate on one Resolved", func() ([]func() string, func() string) {
 		s, rs := mustResolve(defSchema, nil)
 		var a, b any = decode(`{}`), decode(`{"b":{"d":0},"r":1}`)
